@@ -274,7 +274,7 @@ def judge(g, q, r, nm, reach, has_dangling):
 
 
 def run(ctx):
-    ctx.proof_leg(TARGETS, PINS)
+    ctx.proof_leg(TARGETS, PINS, k_targets=["model/ClassGraph.vo"])
     vh = ctx.need_harness()
     rng = ctx.rng
     ngraphs = 2500 if ctx.tier == "thorough" else 400
